@@ -4,6 +4,8 @@ The public decoding calls of jxl_oxide must return a value or an error for every
 (the callee or field the Option was produced by, followed back through copies, `?`, and the Option adaptors) and why it cannot be
 None.  A new (function, source) pair is reported: it is a new claim nobody has reviewed - typically a lookup by a count that is only
 valid once loading has progressed far enough.  Keys do not contain line numbers or local names."""
+import re
+
 from ..facts import callee, op_local, op_place
 from ..mirutil import Defs, strip_generics
 
@@ -28,7 +30,7 @@ REVIEWED = {
         "only on the branch where render_loading_frame() produced a grid, which is entered under `loading_frame().is_some()`",
     ("RenderContext::render_loading_frame", "jxl_render::RenderContext::loading_frame"):
         "private; its only caller tests `loading_frame().is_some()` first, and nothing in between takes the frame",
-    ("RenderContext::postprocess_keyframe::{closure#0}", "*"):
+    ("RenderContext::postprocess_keyframe::{closure}", "*"):
         "the cached transform was stored by cache_color_transform() just before; planes were converted to float by convert_modular_color",
 }
 
@@ -91,10 +93,11 @@ def run(ctx):
             n += 1
             reason = None
             for (suffix, s), why in REVIEWED.items():
-                if f.path.endswith(suffix) and (s == "*" or s == src):
+                fp = re.sub(r"::\{closure#\d+\}", "::{closure}", f.path)
+                if fp.endswith(suffix) and (s == "*" or s == src):
                     reason = why
                     break
-            key = "%s<-%s" % (strip_generics(f.path), src)
+            key = "%s<-%s" % (strip_generics(re.sub(r"::\{closure#\d+\}", "::{closure}", f.path)), src)
             if reason:
                 ctx.ok(rid, key, reason, fn=f)
             else:
